@@ -42,11 +42,21 @@ static var mk_stack(var type, const void* data, size_t sz) {
 /* ---- Blob: a plain struct with no instances (default byte-wise cmp/hash/assign) ------- */
 struct Blob { unsigned char b[16]; };
 static var Blob = Cello(Blob);
+/* plain structs whose size is not a multiple of 8 (default cmp/hash/assign/swap over odd sizes); literals b3:<hex> b20:<hex> */
+struct Blob3 { unsigned char b[3]; };
+static var Blob3 = Cello(Blob3);
+struct Blob20 { unsigned char b[20]; };
+static var Blob20 = Cello(Blob20);
+struct Blob75 { unsigned char b[75]; };       /* larger than any chunk buffer a byte-wise default might use */
+static var Blob75 = Cello(Blob75);
 /* user types whose names are prefixes / extensions of other type names (name order, exact name equality) */
 static var Blo = CelloEmpty(Blo);
 static var BlobX = CelloEmpty(BlobX);
 static var In = CelloEmpty(In);
 static var IntX = CelloEmpty(IntX);
+/* Tri: a 3-byte plain struct - an element size that is not a multiple of the pointer size (C04/C11) */
+struct Tri { unsigned char b[3]; };
+static var Tri = Cello(Tri);
 
 /* ---- Probe: element type with constructor, assignment, destructor, owning heap memory - */
 struct Probe { int64_t token; int64_t val; char* mem; };
@@ -55,6 +65,7 @@ static int64_t next_token = 1, epoch_token = 1, live_count = 0;
 static unsigned char* tok_live = NULL; static int64_t tok_cap = 0;
 static char inv_msg[256] = "";
 static int probe_mode = 0;
+static int64_t probe_cmps = 0;     /* Probe_Cmp calls since the last `cmps` op (C03: comparisons per Tree operation) */
 
 static void inv(const char* m) { if (not inv_msg[0]) { snprintf(inv_msg, sizeof inv_msg, "%s", m); } }
 
@@ -104,6 +115,7 @@ static int Probe_Cmp(var self, var obj) {
   struct Probe* p = self;
   struct Probe* q = cast(obj, Probe);
   if (p->token > 0 and p->token < next_token and not tok_live[p->token]) { inv("cmp-finalised"); }
+  probe_cmps++;
   return p->val < q->val ? -1 : p->val > q->val;
 }
 static uint64_t Probe_Hash(var self) {
@@ -142,9 +154,16 @@ static var f_m3(var x)   { return ival(x) % 3 is 0 ? x : NULL; }
 static var f_dbl(var x)  { return fn_ret(ival(x) * 2); }
 static var f_neg(var x)  { return fn_ret(-ival(x)); }
 static var f_id(var x)   { return x; }
+/* recording variants (C11): every call is logged, so a test can see on which items a view called its function */
+static int64_t rec_log[8192]; static size_t rec_n = 0;
+static void rec_add(int64_t v) { if (rec_n < 8192) { rec_log[rec_n++] = v; } }
+static var f_recdbl(var x)  { rec_add(ival(x)); return fn_ret(ival(x) * 2); }
+static var f_receven(var x) { rec_add(ival(x)); return ival(x) % 2 is 0 ? x : NULL; }
+static var f_recid(var x)   { rec_add(ival(x)); return x; }
 static struct { const char* name; var (*f)(var); var obj; } fns[] = {
   {"even", f_even}, {"odd", f_odd}, {"pos", f_pos}, {"all", f_all}, {"none", f_none},
-  {"m3", f_m3}, {"dbl", f_dbl}, {"neg", f_neg}, {"id", f_id}, {NULL, NULL}
+  {"m3", f_m3}, {"dbl", f_dbl}, {"neg", f_neg}, {"id", f_id},
+  {"recdbl", f_recdbl}, {"receven", f_receven}, {"recid", f_recid}, {NULL, NULL}
 };
 static bool cmp_gt(var a, var b) { return gt(a, b); }
 static bool cmp_lt(var a, var b) { return lt(a, b); }
@@ -169,7 +188,7 @@ static struct { const char* name; var* t; } types[] = {
   {"Concat",&Concat},{"Get",&Get},{"Sort",&Sort},{"Resize",&Resize},{"C_Str",&C_Str},{"C_Int",&C_Int},
   {"C_Float",&C_Float},{"Stream",&Stream},{"Pointer",&Pointer},{"Call",&Call},{"Format",&Format},
   {"Show",&Show},{"Current",&Current},{"Start",&Start},{"Lock",&Lock},{"Mark",&Mark},
-  {"Blob",&Blob},{"Probe",&Probe},{"Blo",&Blo},{"BlobX",&BlobX},{"In",&In},{"IntX",&IntX},{NULL,NULL}
+  {"Blob",&Blob},{"Blob3",&Blob3},{"Blob20",&Blob20},{"Blob75",&Blob75},{"Probe",&Probe},{"Blo",&Blo},{"BlobX",&BlobX},{"In",&In},{"IntX",&IntX},{"Tri",&Tri},{NULL,NULL}
 };
 static var type_by_name(const char* n) {
   for (int i = 0; types[i].name; i++) { if (strcmp(types[i].name, n) is 0) { return *types[i].t; } }
@@ -196,8 +215,25 @@ static var arg(const char* a) {
     struct Blob v; memset(&v, 0, sizeof v); size_t n; unsigned char* d = keep(unhex(a + 2, &n));
     memcpy(v.b, d, n < 16 ? n : 16); return mk_stack(Blob, &v, sizeof v);
   }
+  if (a[0] is 'c' and a[1] is ':') {
+    struct Tri v; memset(&v, 0, sizeof v); size_t n; unsigned char* d = keep(unhex(a + 2, &n));
+    memcpy(v.b, d, n < 3 ? n : 3); return mk_stack(Tri, &v, sizeof v);
+  }
+  if (a[0] is 'b' and a[1] is '3' and a[2] is ':') {
+    struct Blob3 v; memset(&v, 0, sizeof v); size_t n; unsigned char* d = keep(unhex(a + 3, &n));
+    memcpy(v.b, d, n < 3 ? n : 3); return mk_stack(Blob3, &v, sizeof v);
+  }
+  if (a[0] is 'b' and a[1] is '2' and a[2] is '0' and a[3] is ':') {
+    struct Blob20 v; memset(&v, 0, sizeof v); size_t n; unsigned char* d = keep(unhex(a + 4, &n));
+    memcpy(v.b, d, n < 20 ? n : 20); return mk_stack(Blob20, &v, sizeof v);
+  }
+  if (a[0] is 'b' and a[1] is '7' and a[2] is '5' and a[3] is ':') {
+    struct Blob75 v; memset(&v, 0, sizeof v); size_t n; unsigned char* d = keep(unhex(a + 4, &n));
+    memcpy(v.b, d, n < 75 ? n : 75); return mk_stack(Blob75, &v, sizeof v);
+  }
   if (a[0] is 'p' and a[1] is ':') { struct Probe v = { 0, strtoll(a + 2, NULL, 10), NULL }; return mk_stack(Probe, &v, sizeof v); }
   if (a[0] is 'r' and a[1] is ':') { struct Ref v = { arg(a + 2) }; return mk_stack(Ref, &v, sizeof v); }
+  if (a[0] is 'x' and a[1] is ':') { struct Box v = { arg(a + 2) }; return mk_stack(Box, &v, sizeof v); }   /* x:<arg> : $(Box, arg), e.g. as the value of set(table<K,Box>, k, ...) (C05) */
   if (a[0] is 't' and a[1] is ':') { return type_by_name(a + 2); }
   if (a[0] is 'f' and a[1] is 'n' and a[2] is ':') {
     for (int i = 0; fns[i].name; i++) { if (strcmp(fns[i].name, a + 3) is 0) { return fns[i].obj; } }
@@ -253,6 +289,10 @@ static void repr(var v, int depth) {
   else if (t is String) { fputc('s', o); char* s = ((struct String*)v)->val; if (s) { fputhex(o, s, strlen(s)); } else { fputs("NULLSTR", o); } }
   else if (t is Type) { fprintf(o, "t%s", c_str(v)); }
   else if (t is Blob) { fputc('b', o); fputhex(o, v, 16); }
+  else if (t is Blob3) { fputs("b3", o); fputhex(o, v, 3); }
+  else if (t is Blob20) { fputs("b20", o); fputhex(o, v, 20); }
+  else if (t is Blob75) { fputs("b75", o); fputhex(o, v, 75); }
+  else if (t is Tri) { fputc('c', o); fputhex(o, v, 3); }
   else if (t is Probe) { fprintf(o, "p%" PRId64, ((struct Probe*)v)->val); }
   else if (t is Ref) { fputs("r(", o); repr(((struct Ref*)v)->val, depth + 1); fputc(')', o); }
   else if (t is Box) { fputs("x(", o); repr(((struct Box*)v)->val, depth + 1); fputc(')', o); }
@@ -379,6 +419,20 @@ static int tree_children(var t, var key) {
   return -1;
 }
 #endif
+
+/* ---- run-time types (C19): new(Type, name, size), created once per process and never freed, so that
+** objects of such a type that are still garbage at the end of a case can be swept safely later ---- */
+static struct { char* name; size_t size; var t; } rtypes[64]; static int nrtypes = 0;
+static var rtype_get(const char* name, size_t sz) {
+  for (int i = 0; i < nrtypes; i++) { if (rtypes[i].size is sz and strcmp(rtypes[i].name, name) is 0) { return rtypes[i].t; } }
+  if (nrtypes is 64) { harness_bug("too many run-time types"); }
+  char* nm = strdup(name);
+  var t = new_raw(Type, $S(nm), $I((int64_t)sz));
+  rtypes[nrtypes].name = nm; rtypes[nrtypes].size = sz; rtypes[nrtypes].t = t; nrtypes++;
+  return t;
+}
+/* the size(type_of(x)) bytes of x as hex */
+static void peek_obj(var x) { fputhex(o, x, size(type_of(x))); }
 
 /* ---- ops ---------------------------------------------------------------------------- */
 
@@ -564,6 +618,52 @@ static void do_op(char** w, int n) {
     fprintf(o, "ret=%d at=%ld v=", r, at);
     for (int i = 3; i < n; i++) { if (i > 3) { fputc(',', o); } repr(arg(w[i]), 0); }
   }
+  else if (OP("flookp")) {                /* flookp %dst texthex pos off : like flook, but the stream stands at offset off and pos is passed on */
+    size_t tn; unsigned char* text = keep(unhex(w[2], &tn)); int pos = atoi(w[3]); long off = atol(w[4]);
+    if (vf_pending) { fclose(vf_pending); vf_pending = NULL; }
+    FILE* fp = tmpfile(); if (not fp) { harness_bug("tmpfile"); }
+    fwrite(text, 1, tn, fp); fflush(fp); fseek(fp, off, SEEK_SET);
+    struct File fv = { fp }; var f = mk_stack(File, &fv, sizeof fv);
+    var d = arg(w[1]);
+    vf_pending = fp;
+    int r = look_from(d, f, pos);
+    vf_pending = NULL;
+    long at = ftell(fp); fclose(fp);
+    fprintf(o, "ret=%d at=%ld v=", r, at); repr(d, 0);
+  }
+  else if (OP("fscanp")) {                /* fscanp pos off texthex fmthex dst... : like fscan, stream at offset off, pos passed on */
+    int pos = atoi(w[1]); long off = atol(w[2]);
+    size_t tn; unsigned char* text = keep(unhex(w[3], &tn));
+    char* fmt = (char*)keep(unhex(w[4], NULL));
+    if (vf_pending) { fclose(vf_pending); vf_pending = NULL; }
+    FILE* fp = tmpfile(); if (not fp) { harness_bug("tmpfile"); }
+    fwrite(text, 1, tn, fp); fflush(fp); fseek(fp, off, SEEK_SET);
+    struct File fv = { fp }; var f = mk_stack(File, &fv, sizeof fv);
+    vf_pending = fp;
+    int r = scan_from_with(f, pos, fmt, arg_tuple(w + 5, n - 5));
+    vf_pending = NULL;
+    long at = ftell(fp); fclose(fp);
+    fprintf(o, "ret=%d at=%ld v=", r, at);
+    for (int i = 5; i < n; i++) { if (i > 5) { fputc(',', o); } repr(arg(w[i]), 0); }
+  }
+  else if (OP("oprint")) {                /* oprint p|n fmthex args... | oprint s A : print_with / println_with / show on the
+                                             process' own stdout; the descriptor is redirected into a temporary file meanwhile */
+    char mode = w[1][0];
+    char* fmt = mode is 's' ? NULL : (char*)keep(unhex(w[2], NULL));
+    var a = mode is 's' ? arg(w[2]) : arg_tuple(w + 3, n - 3);
+    FILE* cap = tmpfile(); if (not cap) { harness_bug("tmpfile"); }
+    fflush(stdout);
+    int saved = dup(1); if (saved < 0) { harness_bug("dup"); }
+    dup2(fileno(cap), 1);
+    volatile int r = -1; var volatile inner = NULL;
+    try { r = mode is 'p' ? print_with(fmt, a) : mode is 'n' ? println_with(fmt, a) : show(a); } catch (e) { inner = e; }
+    fflush(stdout);
+    dup2(saved, 1); close(saved);
+    fseek(cap, 0, SEEK_END); long sz = ftell(cap); rewind(cap);
+    char* data = keep(malloc((size_t)sz + 1)); size_t got = fread(data, 1, (size_t)sz, cap); fclose(cap);
+    if (inner) { fprintf(o, "raised %s s=", c_str(inner)); } else { fprintf(o, "ret=%d s=", r); }
+    fputhex(o, data, got);
+  }
   else if (OP("cstr")) { char* s = c_str(arg(w[1])); fputhex(o, s, strlen(s)); }
   else if (OP("cint")) { fprintf(o, "%" PRId64, c_int(arg(w[1]))); }
   else if (OP("cfloat")) { double d = c_float(arg(w[1])); uint64_t b; memcpy(&b, &d, 8); fprintf(o, "%016" PRIx64, b); }
@@ -646,8 +746,25 @@ static void do_op(char** w, int n) {
     }
     fputc(']', o);
   }
+  else if (OP("fwdk") or OP("bwdk")) {     /* fwdk c k : an abandoned walk - the first k items (fewer if it ends), then stop */
+    var c = arg(w[1]); size_t k = (size_t)atol(w[2]), j = 0; bool f = op[0] is 'f';
+    fputc('[', o);
+    for (var it = f ? iter_init(c) : iter_last(c); it isnt Terminal and j < k; ) {
+      if (j > 0) { fputc(',', o); }
+      repr(it, 1); j++;
+      if (j < k) { it = f ? iter_next(c, it) : iter_prev(c, it); }
+    }
+    fputc(']', o);
+  }
+  else if (OP("mapcall")) { call_with(arg(w[1]), arg_tuple(w + 2, 0)); }      /* call(map): performs the iteration */
+  else if (OP("reclog")) {                /* print and clear the log of the recording functions */
+    fputc('[', o);
+    for (size_t i = 0; i < rec_n; i++) { fprintf(o, "%si%" PRId64, i ? "," : "", rec_log[i]); }
+    fputc(']', o); rec_n = 0;
+  }
   else if (OP("live")) { fprintf(o, "live=%" PRId64 " ledger=%s", live_count, inv_msg[0] ? inv_msg : "-"); }
   else if (OP("pmode")) { probe_mode = atoi(w[1]); }
+  else if (OP("cmps")) { fprintf(o, "%" PRId64, probe_cmps); probe_cmps = 0; }   /* print and reset the Probe_Cmp call counter */
   else if (OP("collect")) {
 #ifndef CELLO_NGC
     extern void GC_Mark(var); extern void GC_Sweep(var);
@@ -682,6 +799,34 @@ static void do_op(char** w, int n) {
     fputs("nohook", o);
 #endif
   }
+  /* -- C19: run-time types, bare allocation, byte-wise access to the size(type) bytes of an object -- */
+  else if (OP("rtype")) { S[slotno(w[1])] = rtype_get(w[2], (size_t)strtoull(w[3], NULL, 10)); fputs("rtype", o); }   /* rtype d name size */
+  else if (OP("alloc")) {                /* alloc d heap|raw|root T : alloc / alloc_raw / alloc_root (zeroed, not constructed) */
+    int d = slotno(w[1]); var t = arg(w[3]); var r;
+    if (w[2][0] is 'h') { r = alloc(t); }
+    else if (w[2][0] is 'r' and w[2][1] is 'a') { r = alloc_raw(t); }
+    else if (w[2][0] is 'r') { r = alloc_root(t); }
+    else { harness_bug("bad class"); r = NULL; }
+    S[d] = r; fputs("alloc", o);
+  }
+  else if (OP("deallocroot")) { dealloc_root(arg(w[1])); }
+  else if (OP("tsize")) { fprintf(o, "%zu", size(arg(w[1]))); }      /* tsize T */
+  else if (OP("fill")) {                 /* fill x hh : write all size(type_of(x)) bytes of x */
+    var x = arg(w[1]); memset(x, (int)strtol(w[2], NULL, 16), size(type_of(x)));
+  }
+  else if (OP("peek")) { peek_obj(arg(w[1])); }
+  else if (OP("peeks")) {                /* peeks c [kv] : the bytes of every item (and of get(c, item)) of c, in iteration order */
+    var c = arg(w[1]); bool kv = n > 2; size_t k = 0; bool first = true;
+    fputc('[', o);
+    for (var it = iter_init(c); it isnt Terminal; it = iter_next(c, it)) {
+      if (k++ >= 100000) { fputs(",OVERRUN", o); break; }
+      if (not first) { fputc(',', o); }
+      first = false;
+      fprintf(o, "%s/", c_str(type_of(it))); peek_obj(it);
+      if (kv) { var v = get(c, it); fprintf(o, ":%s/", c_str(type_of(v))); peek_obj(v); }
+    }
+    fputc(']', o);
+  }
   else { harness_bug("unknown op"); }
   #undef OP
 }
@@ -711,9 +856,23 @@ int main(int argc, char** argv) {
       { extern void Cello_Verif_GC_Collect(var); Cello_Verif_GC_Collect(current(GC)); }
 #endif
       arena_free();
-      epoch_token = next_token; live_count = 0; inv_msg[0] = 0; probe_mode = 0;
+      epoch_token = next_token; live_count = 0; inv_msg[0] = 0; probe_mode = 0; rec_n = 0;
       printf("done\n"); fflush(stdout);
       cases++;
+      continue;
+    }
+    if (strcmp(line, "reset") is 0) {
+      /* C18: boundary between two sub-programs of one case.  Same clean-up as at the end of a case (slots dropped,
+      ** garbage swept from this shallow frame, ledgers reset) so that garbage of one sub-program - which may hold
+      ** pointers to objects its program deleted explicitly - is never traced during the next one; the process, the
+      ** heap, the collector's registry and the method caches carry over.  Answers one line like any op. */
+      memset(slots, 0, sizeof slots);
+#if defined(CELLO_VERIF) && !defined(CELLO_NGC)
+      { extern void Cello_Verif_GC_Collect(var); Cello_Verif_GC_Collect(current(GC)); }
+#endif
+      arena_free();
+      epoch_token = next_token; live_count = 0; inv_msg[0] = 0; probe_mode = 0; rec_n = 0;
+      printf("ok reset\n");
       continue;
     }
     int n = split(line, w, MAXW);
